@@ -6,6 +6,7 @@ import (
 	"math/rand/v2"
 	"runtime"
 	"strconv"
+	"sync"
 	"testing/synctest"
 )
 
@@ -28,9 +29,10 @@ type Sched struct {
 	Waiting []*Parked
 	Pass    map[string]bool // sites that never park (external API calls made by the harness)
 	Rng     *rand.Rand
-	Free    bool   // free-running: never park
-	UseExt  bool   // Settle with the extended quiescence detector (mutex waits count as settled)
-	ArmOp   string // "" | "send": the next channel operation of that kind (not on the root goroutine) parks inside the operation
+	Free    bool // free-running: never park
+	UseExt  bool // Settle with the extended quiescence detector (mutex waits count as settled)
+	armMu   sync.Mutex
+	armOp   string // "" | "send" | "close": the next channel operation of that kind (not on the root goroutine) parks inside the operation
 	RootGid int64
 	// counters
 	Probes     int
@@ -77,10 +79,16 @@ func (s *Sched) Point(site string, args ...any) {
 // calling goroutine parks here, i.e. while it holds whatever lock the library
 // holds around the operation.
 func (s *Sched) InOp(kind, ch string) {
-	if s.ArmOp != kind || s.Free || gid() == s.RootGid {
+	if s.Free || gid() == s.RootGid {
 		return
 	}
-	s.ArmOp = ""
+	s.armMu.Lock() // (channel operations of the library run on any goroutine)
+	if s.armOp != kind {
+		s.armMu.Unlock()
+		return
+	}
+	s.armOp = ""
+	s.armMu.Unlock()
 	p := &Parked{Site: "vchan.in" + kind, Args: []any{ch}, Gid: gid(), rel: make(chan struct{})}
 	s.arrive <- p
 	<-p.rel
@@ -144,6 +152,12 @@ func (s *Sched) ReleaseIdxExt(i int) {
 	s.SettleExt()
 }
 
+func (s *Sched) arm(kind string) {
+	s.armMu.Lock()
+	s.armOp = kind
+	s.armMu.Unlock()
+}
+
 // Probe arms an in-operation park for kind, runs the schedule (seeded-random
 // releases) until some goroutine is parked inside such an operation, then, with
 // it parked there, releases every other parked goroutine and runs the external
@@ -153,14 +167,14 @@ func (s *Sched) ReleaseIdxExt(i int) {
 // begin and end events of the parked operation.
 func (s *Sched) Probe(kind string, extra []func()) bool {
 	site := "vchan.in" + kind
-	s.ArmOp = kind
+	s.arm(kind)
 	s.Settle()
 	for n := 0; s.Find(site) < 0 && n < 300; n++ {
 		if !s.ReleaseRandom() {
 			break
 		}
 	}
-	s.ArmOp = ""
+	s.arm("")
 	i := s.Find(site)
 	if i < 0 {
 		return false
